@@ -188,6 +188,9 @@ func runC19Race(ctx *core.Ctx) {
 	if err := os(); err != nil {
 		ctx.Note("race detector unavailable (%v): the concurrent-load oracle is skipped", err)
 		ctx.Count("race:unavailable")
+		if !raceToolchainLimit(err.Error()) {
+			ctx.Add("raceHelperBuild", map[string]string{"err": err.Error()})
+		}
 		return
 	}
 	n := ctx.Pick(160, 3000)
